@@ -353,6 +353,14 @@ class C15(CreateProp):
             out.append({"creator": creator, "version": 1, "align": True, "P": P,
                         "tree": mk_tree(sh, sizes, modes=modes_for(n, sizes), nv=(n // 2) % 6 if n % 4 == 1 else 0), "clauses": cl,
                         "progress": (1, 2)[(n // 3) % 2] if n % 3 == 0 else 0})
+        # no piece length given: whatever is chosen (and however it is adjusted) must be what is recorded AND what the
+        # padding and the pieces were computed with - a bulk file above the first threshold next to many small files
+        for creator in ("TorrentFile", "cli"):
+            sizes = (20 * 2 ** 20 + 3,) + tuple(100 + 37 * k for k in range(13))
+            out.append({"creator": creator, "version": 1, "align": True, "P": 0, "tree": mk_tree("DM", sizes), "clauses": cl, "progress": 0})
+            # ... next to hundreds of small files (the padding then outweighs a tenth of the payload)
+            sizes = (20 * 2 ** 20 + 3,) + tuple(1 + 7 * k for k in range(199))
+            out.append({"creator": creator, "version": 1, "align": True, "P": 0, "tree": mk_tree("DW", sizes), "clauses": cl, "progress": 0})
         out += hasher1_universe("MC_HasherV1.cfg" if tier != "thorough" else "MC_HasherV1_4files.cfg",
                                 ["C15.scaled", "M01.scaled"], rng, None if tier == "thorough" else 1500, aligns=(True,))
         return out
